@@ -197,7 +197,7 @@ def sensitivity(argv):
                     if '--all-props' not in argv:
                         break
             row['killed_by'] = killed_by
-            row['status'] = 'killed' if killed_by else ('survived-equivalent' if mut.get('equivalent') else 'SURVIVED')
+            row['status'] = 'killed' if killed_by else ('survived-equivalent' if mut.get('equivalent') else ('missed-out-of-scope' if mut.get('expect_miss') else 'SURVIVED'))
             if mut.get('equivalent'):
                 row['equivalent_because'] = mut['equivalent']
             print('%-40s %-9s tests_pass=%s %s' % (mut['name'], row['status'], row.get('baseline_tests_pass'), json.dumps(row.get('checks'))[:200]), flush=True)
@@ -212,6 +212,7 @@ def sensitivity(argv):
         table = [r for r in old.get('table', []) if r['name'] not in names] + table
     ev = dict(mutants=len(table), killed=sum(1 for r in table if r.get('status') == 'killed'), survived=[r['name'] for r in table if r.get('status') == 'SURVIVED'],
               survived_equivalent=[r['name'] for r in table if r.get('status') == 'survived-equivalent'],
+              missed_out_of_scope=[r['name'] for r in table if r.get('status') == 'missed-out-of-scope'],
               patch_failed=[r['name'] for r in table if r.get('status') == 'patch-failed'],
               invalid_because_unit_tests_fail=[r['name'] for r in table if r.get('baseline_tests_pass') is False],
               table=table, wall_s=round(time.time() - t0, 1),
